@@ -431,8 +431,17 @@ PROPS["C20"] = {"scripts": None, "configs": only_default, "backends": one_backen
 P = "SkinnyVerif.Properties."
 def thm(pid, mods, names):
     PROPS[pid]["modules"] = ["SkinnyVerif.Properties." + m for m in mods]
-    PROPS[pid]["theorems"] = [P + n for n in names]
+    PROPS[pid]["theorems"] = [(n if n.startswith("SkinnyVerif.") else P + n) for n in names]
 
 thm("C01", ["C01"], ["C01_skinny128", "C01_skinny64"])
+thm("C03", ["C03"], ["C03_skinny128", "C03_skinny64", "C03_tweaked128", "C03_tweaked64", "spec128_dec_enc", "spec128_enc_dec", "spec64_dec_enc", "spec64_enc_dec"])
 thm("C04", ["C04"], ["C04_skinny128", "C04_skinny64"])
+thm("C05", ["C05", "C06"], ["C05_stream", "C05_init", "C05_involution", "C05_calls", "C05_C06_instances"])
+thm("C06", ["C06"], ["C06_ctr", "C06_step", "C06_init", "C05_C06_instances"])
+thm("C14", ["C14"], ["C14_no_fault", "C14_failed_call_changes_nothing", "C14_null_object", "C14_inert_object", "C14_invalid_arguments_ctr", "C14_invalid_arguments_par", "step_ok", "run_ok"])
+thm("C15", ["C14"], ["C15_balanced", "C15_single_owner", "C15_all_released", "C15_cleanup", "C15_cleanup_idempotent", "C14_no_fault", "C14_inert_object"])
+thm("C16", ["C14"], ["C16_alloc_failure", "C16_init_success", "C16_then_inert", "C14_no_fault"])
+thm("C17", ["C14"], ["C17_wiped_before_free", "C17_source_sizes", "SkinnyVerif.Api.factsSizes_wipeOK"])
+thm("C11", ["C11"], ["C11_skinny128", "C11_skinny64", "C11_tweaked128", "C11_no_junk_in_loaders"])
+thm("C12", ["C12"], ["C12_skinny128", "C12_skinny64", "C12_tweaked128", "C12_tweaked64"])
 thm("C10", ["C10"], ["C10_skinny128_set_key", "C10_skinny64_set_key", "C10_null_key128", "C10_null_key64", "C10_mantis_set_key"])
